@@ -314,3 +314,21 @@ Qed.
 End AnyResults.
 
 End WriterProofs.
+
+(* the rejection clause of the repaired writer, as one statement *)
+Theorem unencodable_rejected
+  (K D NM : Type) (klen : K -> N) (dlen : D -> N) (nmlen : NM -> N) (cfits : list (lentry K D) -> bool) :
+  (forall st e fl, encodable K D klen dlen e = false ->
+     step K D NM klen dlen nmlen cfits true st (OWrite e fl) = (st, RErr)) /\
+  (forall st e fl st', step K D NM klen dlen nmlen cfits true st (OWrite e fl) = (st', ROk) ->
+     encodable K D klen dlen e = true) /\
+  (forall nm, MaxNameSize < nmlen nm -> step K D NM klen dlen nmlen cfits true init (OOpen nm) = (init, RErr)) /\
+  (forall ops st, Inv K D NM klen dlen cfits st ->
+     Inv K D NM klen dlen cfits (fst (run K D NM klen dlen nmlen cfits true st ops))).
+Proof.
+  split; [|split; [|split]].
+  - exact (write_unencodable_rejected K D NM klen dlen nmlen cfits).
+  - exact (write_ok_encodable K D NM klen dlen nmlen cfits).
+  - exact (open_long_name_rejected K D NM klen dlen nmlen cfits).
+  - exact (run_inv K D NM klen dlen nmlen cfits).
+Qed.
